@@ -130,12 +130,6 @@ Qed.
 End Ops.
 
 (* ---- a decidable check of wf, and the six schemas of the harness -------------------------------- *)
-Fixpoint nodupb (l : list string) : bool :=
-  match l with [] => true | x :: r => negb (existsb (String.eqb x) r) && nodupb r end.
-Definition wfb (s : schema) : bool :=
-  nodupb (map f_db (col_fields s)) && nodupb (map f_name s)
-  && forallb (fun f => forallb (fun g => negb (has_col f && String.eqb (f_name g) (f_db f))
-                                         || (String.eqb (f_name g) (f_name f))) s) s.
 
 Lemma nodupb_inj {A} (key : A -> string) l : nodupb (map key l) = true ->
   forall a b, In a l -> In b l -> key a = key b -> a = b.
@@ -176,7 +170,7 @@ Lemma autoupdate_map_refuted : exists s table selects omits p f,
 Proof.
   exists schema_t1, "t1"%string, [SName "name"%string], [],
          (0, [("name"%string, false); ("updated_at"%string, false)]),
-         (mk_field "UpdatedAt" "updated_at" None None None false AUpdate).
+         (mk_field "UpdatedAt" "updated_at" false None None None false AUpdate).
   split; [apply wfb_wf; vm_compute; reflexivity|].
   split; [vm_compute; tauto|]. repeat (split; [reflexivity|]).
   intros [k H]. vm_compute in H. destruct H as [H|[]]. discriminate H.
